@@ -1048,7 +1048,7 @@ def main(argv=None):
     ck = Check("C12", argv)
     common.setup_impl_env()
     ck.run_witnesses(["w01"])
-    ck.prove(extra_targets=["Props/C01own.v", "Props/C12transforms.v"])
+    ck.prove(extra_targets=["Props/C01own.v", "Props/C12transforms.v", "Props/C12sqlfault.v"])
     have_driver = ck.driver()
 
     # static cross-check (named as such: not a proof)
